@@ -1,6 +1,6 @@
 (* Extraction of the executable models and spec oracles for the correspondence driver.
    ExtrOcamlBasic only: nat, positive, N, Z stay the extracted inductive types; no Extract Constant of ours. *)
-From BG Require Import Base DirectedModel DirectedSpec UndirectedModel UndirectedSpec MultiModel WeightedModel MultiSpec ForcedSpec ConvModel TopologyModel PathsModel PathsCases IOModel IOCases Instances ConcModel ConcCases.
+From BG Require Import Base DirectedModel DirectedSpec UndirectedModel UndirectedSpec MultiModel WeightedModel MultiSpec ForcedSpec ConvModel TopologyModel PathsModel PathsCases IOModel IOCases Instances ConcModel ConcCases FloatTotal FloatCases.
 From Coq Require Extraction ExtrOcamlBasic.
 Extraction Language OCaml.
 Extraction "model.ml" pinned repaired d_trace d_spec_trace u_trace_z u_spec_trace dm_trace_z um_trace_z dw_trace_z uw_trace_z m_spec_trace w_spec_trace d_fspec_trace u_fspec_trace m_fspec_trace w_fspec_trace
@@ -9,4 +9,5 @@ Extraction "model.ml" pinned repaired d_trace d_spec_trace u_trace_z u_spec_trac
   d_sub_case u_sub_case d_sub_spec u_sub_spec
   d_path_case u_path_case d_path_spec u_path_spec dw_dj_case uw_dj_case dw_dj_spec uw_dj_spec
   bin_load_case bin_load_spec d_binw_case u_binw_case d_binw_spec u_binw_spec text_load_case text_load_spec d_txtw_case u_txtw_case txtw_spec
-  d_conc_case u_conc_case d_conc_spec u_conc_spec dm_conc_case um_conc_case dw_conc_case uw_conc_case m_conc_spec w_conc_spec.
+  d_conc_case u_conc_case d_conc_spec u_conc_spec dm_conc_case um_conc_case dw_conc_case uw_conc_case m_conc_spec w_conc_spec
+  f_case f_spec fop_add fop_set djf_case djf_spec.
